@@ -902,8 +902,9 @@ theorem RoleRel_ka_ge {cfg : Cfg} {now : Nat} {c : Option Conn} {sl : Slots} {x 
 
 theorem fire_sim (cfg : Cfg) (s : TState) (cs : S) (target dl : Nat) (r : Role) (isHold : Bool)
     (h : TRel cfg s cs) (hnow : s.now ≤ target) (hnd : nextDue s target = some (dl, r, isHold)) :
-    ∃ cs', onFired cs target (fire s dl r isHold).2 = .ok cs' ∧ TRel cfg (fire s dl r isHold).1 cs' ∧
-      (fire s dl r isHold).1.now ≤ target ∧ mu (fire s dl r isHold).1 target < mu s target := by
+    (∃ cs', onFired cs target (fire s dl r isHold).2 = .ok cs' ∧ TRel cfg (fire s dl r isHold).1 cs' ∧
+      (fire s dl r isHold).1.now ≤ target ∧ mu (fire s dl r isHold).1 target < mu s target) ∧
+    (∀ o ∈ (fire s dl r isHold).2.outs, ∃ x, o = POut.conn (fire s dl r isHold).2.role x) := by
   obtain ⟨hdl, hslot, hmin⟩ := nextDue_some hnd
   have hr := h.role r
   have hcn := h.nowEq
@@ -929,7 +930,7 @@ theorem fire_sim (cfg : Cfg) (s : TState) (cs : S) (target dl : Nat) (r : Role) 
         have hhold := (hmin r).1 _ b1
         rw [fire_ka_eq s dl r c hconn hst, hmax]
         dsimp only
-        refine ⟨({ cs with now := dl } : S).set r { cs.get r with lastKa := dl }, ?_, ?_, ?_, ?_⟩
+        refine ⟨⟨({ cs with now := dl } : S).set r { cs.get r with lastKa := dl }, ?_, ?_, ?_, ?_⟩, by simp⟩
         · have e1 : ¬ (dl < cs.now ∨ target < dl) := by omega
           simp [onFired, hup, hcf, hne, hasKeepalive, e1, ← hdle]
         · refine ⟨by simpa using h.cfgEq, by simp, fun r' => ?_⟩
@@ -961,7 +962,7 @@ theorem fire_sim (cfg : Cfg) (s : TState) (cs : S) (target dl : Nat) (r : Role) 
       rw [fire_hold_eq s dl r c hconn hst]
       dsimp only
       have htime : ¬ (max dl s.now < cs.now ∨ target < max dl s.now) := by omega
-      refine ⟨({ cs with now := max dl s.now } : S).set r {}, ?_, ?_, ?_, ?_⟩
+      refine ⟨⟨({ cs with now := max dl s.now } : S).set r {}, ?_, ?_, ?_, ?_⟩, by simp⟩
       · rcases hcase with ⟨h1, hcf, _⟩ | ⟨h1, hcf, hng, hki, hnv, hz, hnz⟩
         · simp [onFired, hup, hcf, hasHoldDown, holdDown, htime]
         · have hne : (cs.get r).neg ≠ 0 := by
@@ -1041,7 +1042,8 @@ theorem advance_sim (cfg : Cfg) (target : Nat) : ∀ (fuel : Nat) (s : TState) (
     TRel cfg s cs → s.now ≤ target → mu s target ≤ fuel →
     ∃ cs', onFiredAll cs target (advance fuel s target []).2 = .ok cs' ∧
       TRel cfg (advance fuel s target []).1 { cs' with now := target } ∧
-      overdue cs' .active target = none ∧ overdue cs' .passive target = none := by
+      overdue cs' .active target = none ∧ overdue cs' .passive target = none ∧
+      (∀ f ∈ (advance fuel s target []).2, ∀ o ∈ f.outs, ∃ x, o = POut.conn f.role x) := by
   intro fuel
   induction fuel with
   | zero =>
@@ -1052,23 +1054,29 @@ theorem advance_sim (cfg : Cfg) (target : Nat) : ∀ (fuel : Nat) (s : TState) (
       | some x => have := mu_pos_of_due hx; omega
     rw [advance_zero]
     exact ⟨cs, rfl, terminal_rel cfg s cs target h hnow hnd,
-      overdue_none cfg s cs target h hnd _, overdue_none cfg s cs target h hnd _⟩
+      overdue_none cfg s cs target h hnd _, overdue_none cfg s cs target h hnd _, by simp⟩
   | succ n ih =>
     intro s cs h hnow hmu
     cases hnd : nextDue s target with
     | none =>
       rw [advance_succ_none hnd]
       exact ⟨cs, rfl, terminal_rel cfg s cs target h hnow hnd,
-        overdue_none cfg s cs target h hnd _, overdue_none cfg s cs target h hnd _⟩
+        overdue_none cfg s cs target h hnd _, overdue_none cfg s cs target h hnd _, by simp⟩
     | some x =>
       obtain ⟨dl, r, isHold⟩ := x
-      obtain ⟨cs1, h1, h2, h3, h4⟩ := fire_sim cfg s cs target dl r isHold h hnow hnd
-      obtain ⟨cs', k1, k2, k3, k4⟩ := ih _ cs1 h2 h3 (by omega)
+      obtain ⟨⟨cs1, h1, h2, h3, h4⟩, h5⟩ := fire_sim cfg s cs target dl r isHold h hnow hnd
+      obtain ⟨cs', k1, k2, k3, k4, k5⟩ := ih _ cs1 h2 h3 (by omega)
       rw [advance_succ_some hnd, advance_acc]
-      refine ⟨cs', ?_, k2, k3, k4⟩
-      simp only [List.reverse_cons, List.reverse_nil, List.nil_append, List.singleton_append,
-        onFiredAll, h1]
-      exact k1
+      refine ⟨cs', ?_, k2, k3, k4, ?_⟩
+      · simp only [List.reverse_cons, List.reverse_nil, List.nil_append, List.singleton_append,
+          onFiredAll, h1]
+        exact k1
+      · intro f hf
+        simp only [List.reverse_cons, List.reverse_nil, List.nil_append, List.singleton_append,
+          List.mem_cons] at hf
+        rcases hf with rfl | hf
+        · exact h5
+        · exact k5 f hf
 
 theorem mu_bound (cfg : Cfg) (s : TState) (cs : S) (h : TRel cfg s cs) (d : Nat) :
     mu s (s.now + d) ≤ 2 * d + 8 := by
@@ -1099,7 +1107,7 @@ theorem up_eq {cfg : Cfg} {s : TState} {cs : S} (h : TRel cfg s cs) (r : Role) :
 /-- A `wait d` step is accepted by the observer and keeps the relation. -/
 theorem wait_sim (cfg : Cfg) (s : TState) (cs : S) (h : TRel cfg s cs) (d : Nat) :
     ∃ cs', stepOk cfg cs (mkStep s (.wait d)) = .ok cs' ∧ TRel cfg (tstep s (.wait d)).1 cs' := by
-  obtain ⟨cs1, k1, k2, k3, k4⟩ := advance_sim cfg (s.now + d) (2 * d + 8) s cs h (by omega)
+  obtain ⟨cs1, k1, k2, k3, k4, -⟩ := advance_sim cfg (s.now + d) (2 * d + 8) s cs h (by omega)
     (mu_bound cfg s cs h d)
   refine ⟨{ cs1 with now := s.now + d }, ?_, by simpa [tstep] using k2⟩
   have ua := up_eq k2 .active
@@ -1108,6 +1116,13 @@ theorem wait_sim (cfg : Cfg) (s : TState) (cs : S) (h : TRel cfg s cs) (d : Nat)
   simp only [stepOk, mkStep, tstep, onWait, h.nowEq, k1, k3, k4]
   rw [if_neg]
   simp [ua, up]
+
+/-- Every output of a timer firing belongs to the task whose timer fired. -/
+theorem fired_outs_role (cfg : Cfg) (s : TState) (cs : S) (h : TRel cfg s cs) (d : Nat) :
+    ∀ f ∈ (advance (2 * d + 8) s (s.now + d) []).2, ∀ o ∈ f.outs, ∃ x, o = POut.conn f.role x := by
+  obtain ⟨cs1, -, -, -, -, k5⟩ := advance_sim cfg (s.now + d) (2 * d + 8) s cs h (by omega)
+    (mu_bound cfg s cs h d)
+  exact k5
 
 /-! ### 7. Whole runs -/
 
@@ -1164,6 +1179,33 @@ theorem reach_rel (cfg : Cfg) (hv : cfgValid cfg = true) : ∀ (h : List TEv) (s
     rw [runFrom_cons]
     simp only [specAfter, h1]
     exact k1
+
+theorem reach_append (h1 h2 : List TEv) : ∀ s : TState, reach s (h1 ++ h2) = reach (reach s h1) h2 := by
+  induction h1 with
+  | nil => intro s; rfl
+  | cons e rest ih => intro s; simp only [List.cons_append, reach]; exact ih _
+
+theorem runFrom_append (h1 h2 : List TEv) : ∀ s : TState,
+    Timed.runFrom s (h1 ++ h2) = Timed.runFrom s h1 ++ Timed.runFrom (reach s h1) h2 := by
+  induction h1 with
+  | nil => intro s; rfl
+  | cons e rest ih =>
+    intro s
+    simp only [List.cons_append, runFrom_cons, reach, ih]
+
+theorem specAfter_append (cfg : Cfg) (t1 t2 : List TStep) : ∀ cs : S,
+    specAfter cfg cs (t1 ++ t2) = (specAfter cfg cs t1).bind (fun cs' => specAfter cfg cs' t2) := by
+  induction t1 with
+  | nil => intro cs; rfl
+  | cons st rest ih =>
+    intro cs
+    simp only [List.cons_append, specAfter]
+    cases stepOk cfg cs st with
+    | error e => rfl
+    | ok cs' => exact ih cs'
+
+theorem wfHist_append (h1 h2 : List TEv) : wfHist (h1 ++ h2) = (wfHist h1 && wfHist h2) := by
+  simp [wfHist]
 
 /-- Master theorem: the reference checker accepts every run of the timed model. -/
 theorem check_run_ok (cfg : Cfg) (hv : cfgValid cfg = true) (h : List TEv) (hw : wfHist h = true) :
@@ -1278,7 +1320,7 @@ theorem onFiredAll_nonzero (target : Nat) : ∀ (fs : List Fired) (cs cs' : S) (
       | true =>
         obtain ⟨a1, a2, a3⟩ := k1 hh
         obtain ⟨-, a4⟩ := a3 hcf
-        have hdead := onFiredAll_dead target rest cs1 cs' r h2 (by rw [a2]; rfl)
+        have hdead := onFiredAll_dead target rest cs1 cs' r h2 (by rw [a2])
         exact Or.inr ⟨⟨f, List.mem_cons_self, he, hh, a4, ht, a1⟩, by rw [hdead.2, a2]⟩
       | false =>
         obtain ⟨-, -, -, -, a5⟩ := k2 hh
@@ -1301,5 +1343,93 @@ theorem onFiredAll_nonzero (target : Nat) : ∀ (fs : List Fired) (cs cs' : S) (
         · exact b1 f' hf' hr'
       · refine Or.inr ⟨⟨f', List.mem_cons_of_mem _ hf', c1, c2, ?_, c4, c5⟩, b2⟩
         rw [c3, e1]
+
+/-- Every accepted hold-timer firing of a confirmed role with hold time `n ≠ 0` happens exactly
+    at `lastRx + n` and shows the hold-expiry SessionDown. -/
+theorem hold_fire_time {target : Nat} : ∀ {fs : List Fired} {cs cs' : S} {r : Role},
+    onFiredAll cs target fs = .ok cs' →
+    (cs.get r).up = true → (cs.get r).confirmed = true → (cs.get r).neg ≠ 0 →
+    ∀ {f : Fired}, f ∈ fs → f.role = r → f.isHold = true →
+    f.time = (cs.get r).lastRx + (cs.get r).neg ∧ hasHoldDown r f.outs = true := by
+  intro fs
+  induction fs with
+  | nil => intro cs cs' r _ _ _ _ f hf; cases hf
+  | cons g rest ih =>
+    intro cs cs' r h hup hcf hne f hf hr hh
+    obtain ⟨cs1, h1, h2⟩ := onFiredAll_cons h
+    rcases List.mem_cons.1 hf with rfl | hf
+    · obtain ⟨-, -, -, k1, -⟩ := onFired_self h1
+      rw [hr] at k1
+      obtain ⟨a1, -, a3⟩ := k1 hh
+      exact ⟨(a3 hcf).2, a1⟩
+    · by_cases hg : g.role = r
+      · obtain ⟨-, -, -, k1, k2⟩ := onFired_self h1
+        rw [hg] at k1 k2
+        cases hgh : g.isHold with
+        | true =>
+          have hdead := onFiredAll_dead target rest cs1 cs' r h2 (by rw [(k1 hgh).2.1])
+          exact absurd hr (hdead.1 f hf)
+        | false =>
+          obtain ⟨-, -, -, -, a5⟩ := k2 hgh
+          have := ih h2 (by rw [a5]; exact hup) (by rw [a5]; exact hcf) (by rw [a5]; exact hne) hf hr hh
+          rw [a5] at this
+          exact this
+      · have e1 := onFired_other h1 (Ne.symm hg)
+        have := ih h2 (by rw [e1]; exact hup) (by rw [e1]; exact hcf) (by rw [e1]; exact hne) hf hr hh
+        rw [e1] at this
+        exact this
+
+/-- The list of firings a `wait d` produces in state `s`. -/
+def firedOf (s : TState) (d : Nat) : List Fired := (advance (2 * d + 8) s (s.now + d) []).2
+
+/-- The outputs of an ordinary event step. -/
+def outsOf (s : TState) (r : Role) (e : Ev) : List POut := outsOfObs (arbStep s.peer r e).2
+
+theorem tstep_wait_obs (s : TState) (d : Nat) : (tstep s (.wait d)).2 = .fired (firedOf s d) := rfl
+theorem tstep_ev_obs (s : TState) (r : Role) (e : Ev) :
+    (tstep s (.ev r e)).2 = .step (arbStep s.peer r e).2 := rfl
+
+theorem stepOk_ev_inv {cfg : Cfg} {s : TState} {cs cs' : S} {r : Role} {e : Ev}
+    (h : stepOk cfg cs (mkStep s (.ev r e)) = .ok cs') :
+    hasHoldDown r (outsOf s r e) = false ∧
+    cs' = syncDown (cs.set r (updR cfg cs.now (cs.get r) e ((tstep s (.ev r e)).1.peer.state r)))
+            (mkStep s (.ev r e)) := by
+  simp only [stepOk, mkStep, onEv_eq, tstep_ev_obs] at h
+  cases hh : hasHoldDown r (outsOfObs (arbStep s.peer r e).2) with
+  | true => rw [hh] at h; simp at h
+  | false =>
+    rw [hh] at h
+    simp only [Bool.false_eq_true, if_false, Except.ok.injEq] at h
+    refine ⟨hh, ?_⟩
+    rw [← h]
+    congr 3
+    cases r <;> rfl
+
+theorem ite_error_ok {c : Prop} [Decidable c] {e : String} {v w : S}
+    (h : (if c then Except.error e else Except.ok v) = Except.ok w) : v = w := by
+  split at h
+  · cases h
+  · injection h
+
+theorem stepOk_wait_inv {cfg : Cfg} {s : TState} {cs cs' : S} {d : Nat}
+    (h : stepOk cfg cs (mkStep s (.wait d)) = .ok cs') :
+    ∃ cs1, onFiredAll cs (cs.now + d) (firedOf s d) = .ok cs1 ∧
+      overdue cs1 .active (cs.now + d) = none ∧ overdue cs1 .passive (cs.now + d) = none ∧
+      cs' = { cs1 with now := cs.now + d } := by
+  simp only [stepOk, mkStep, onWait, tstep_wait_obs] at h
+  cases h1 : onFiredAll cs (cs.now + d) (firedOf s d) with
+  | error e => rw [h1] at h; cases h
+  | ok cs1 =>
+    rw [h1] at h
+    dsimp only at h
+    cases h2 : overdue cs1 .active (cs.now + d) with
+    | some e => rw [h2] at h; cases h
+    | none =>
+      cases h3 : overdue cs1 .passive (cs.now + d) with
+      | some e => rw [h2, h3] at h; cases h
+      | none =>
+        rw [h2, h3] at h
+        dsimp only at h
+        exact ⟨cs1, rfl, h2, h3, (ite_error_ok h).symm⟩
 
 end Rbgp.Fsm.TimedProofs
